@@ -289,8 +289,10 @@ func main() {
 		asserts = append(asserts, instantiate(o.PC, sks)...)
 		// loop counters (and their neighbours) are the usual witnesses of existential goals and
 		// the usual instances of range-quantified invariants
-		cands := loopIndexTerms(asserts)
-		asserts = append(asserts, instantiate(append(append([]*Term{}, o.PC...), flattenAnd(neg)...), cands)...)
+		if os.Getenv("GOVC_NOLOOPINST") == "" {
+			cands := loopIndexTerms(asserts)
+			asserts = append(asserts, instantiate(append(append([]*Term{}, o.PC...), flattenAnd(neg)...), cands)...)
+		}
 		var gv []*Term
 		if o.Kind != "cover" {
 			gv = append(append(append([]*Term{}, o.Inputs...), sks...), heapReads(asserts)...)
@@ -538,6 +540,23 @@ func instantiate(pc []*Term, sks []*Term) []*Term {
 			if !seen[inst] && !inst.IsTrue() && len(out) < 64 {
 				seen[inst] = true
 				out = append(out, inst)
+			}
+			// a nested universal (forall i. R(i) => forall j. B) is instantiated at the inner level too
+			inner, guard := inst, tTrue
+			if inner.Op == "=>" {
+				guard, inner = inner.Args[0], inner.Args[1]
+			}
+			if inner.Op == "forall" && len(inner.Bound) == 1 && inner.Bound[0].Sort == SInt {
+				for _, sk2 := range sks {
+					if sk2.Sort != SInt {
+						continue
+					}
+					i2 := Implies(guard, Subst(inner.Args[0], map[*Term]*Term{inner.Bound[0]: sk2}))
+					if !seen[i2] && !i2.IsTrue() && len(out) < 64 {
+						seen[i2] = true
+						out = append(out, i2)
+					}
+				}
 			}
 		}
 	}
